@@ -16,6 +16,11 @@ the solver proves
 and, in separate tasks, G6: one tune() step moves the proposal spread in the direction of the acceptance
 error (ScalerOperator, SlidingWindowOperator, DirichletOperator, GMRF block updating re-parameterisation,
 HMCOperator, AdaptiveStepSize, DualAveragingStepSize).
+G3 / G4 for GMRFPiecewiseCoalescentBlockUpdatingOperator (chk/c15_gmrf.py): the real step() - propose_precision,
+Newton iteration, Cholesky / triangular solves - is executed symbolically; the Hastings term it returns is proved
+equal to log q(reverse) - log q(forward), both densities derived from the executed proposal code (Jacobian of the
+executed map w.r.t. the stubbed normal draw; the reverse kernel is the same real code run from the proposed state),
+and the precision move is proved to have a symmetric density (two-branch mixture derived from propose_precision).
 """
 from __future__ import annotations
 
@@ -36,6 +41,8 @@ from symtorch.explore import _to_float, prove
 from symtorch.ext_c15 import Canon, SymMath15, strip_stop, subst
 from symtorch.tensor import mkfloat
 from vlib.core import main_for, pmap
+
+from chk import c15_gmrf
 
 PID = 'C15'
 TAU = 0.24  # target acceptance probability of the random-walk operators
@@ -1724,14 +1731,14 @@ def replay_guard(which):
 
 
 def gmrf_wiring(task, tr):
-    """accept / reject / restore wiring of the GMRF block-updating operator (its proposal itself is outside the claim)"""
+    """accept / reject / restore wiring of the GMRF block-updating operator (its real proposal: chk/c15_gmrf.py)"""
     from symtorch import new_vars
     from torchtree.inference.mcmc.gmrf_block_updating import GMRFPiecewiseCoalescentBlockUpdatingOperator as G
     from torchtree.inference.mcmc.operator import MCMCOperator
 
     tr.fn(MCMCOperator.step, MCMCOperator.reject, MCMCOperator.accept, G.__init__)
-    tr.stubs.add('GMRFPiecewiseCoalescentBlockUpdatingOperator._step -> assigns arbitrary symbolic field / precision (Newton iteration, '
-                 'Cholesky and triangular solves are outside the claim)')
+    tr.stubs.add('gmrf-wiring task only: GMRFPiecewiseCoalescentBlockUpdatingOperator._step -> assigns arbitrary symbolic field / precision '
+                 '(the real _step is executed by the gmrf-step tasks)')
     with tracing() as t:
         d = t.dag
         _, _, _, op = make_tunable('gmrf', 2.0, 0, True)
@@ -1765,7 +1772,8 @@ def gmrf_wiring(task, tr):
 
 # ------------------------------------------------------------------ tasks
 def run_task(task, tr):
-    {'chain': chain_task, 'tune': tune_task, 'guard': guard_task}[task['kind']](task, tr)
+    {'chain': chain_task, 'tune': tune_task, 'guard': guard_task, 'gmrf-step': c15_gmrf.step_task,
+     'gmrf-precision': c15_gmrf.precision_task}[task['kind']](task, tr)
 
 
 def chain(target, ops, plan, **kw):
@@ -1824,6 +1832,23 @@ def tasks_for(tier):
         for so_far, acc in ((9, True), (2, False), (7, True)):
             ts.append({'kind': 'tune', 'op': 'adaptive-rate', 'count': 9, 'accepted_so_far': so_far, 'accepted': acc})
     ts += [{'kind': 'guard', 'which': w} for w in ('inf-hastings', 'nan-density', 'gmrf-wiring')]
+    # GMRF block update: Hastings term of the real step() (both branches of the precision proposal, scaler == 1,
+    # real Newton iteration and its functional-contract twin) and symmetry of the precision proposal
+    B2, S1 = {'r1': 0.95}, {'s': 1.0}
+    far = {'g[0]': 4.0, 'g[1]': -3.0, 's': 5.0, 'r2': 0.05}  # far from the mode: more Newton iterations, factor near 1/s
+    if tier == 'quick':
+        gm = [(2, 'real', None), (2, 'real', B2), (2, 'real', S1), (2, 'contract', None), (3, 'real', far), (3, 'contract', B2)]
+        ts.append({'kind': 'gmrf-precision'})
+    else:
+        gm = [(n, nr, w) for n in (2, 3) for nr in ('real', 'contract') for w in (None, B2, S1, far)]
+        gm += [(4, 'contract', None), (4, 'contract', B2),
+               (3, 'real', {'w[1]': 0.0, 'w[2]': 0.0}),  # grid intervals without lineages
+               (2, 'real', {'g[0]': -2.5, 'g[1]': 3.0, 'tau': 0.2, 's': 1.3, 'r2': 0.97, 'z[0]': -1.4, 'z[1]': 2.2}),
+               (3, 'real', {'tau': 8.0, 's': 3.0, 'r1': 0.9, 'r2': 0.02, 'c[0]': 0.0, 'c[2]': 4.0})]
+        for sv, xv in ((1.2, 1.1), (2.0, 0.6), (5.0, 3.7)):
+            ts.append({'kind': 'gmrf-precision', 's': sv, 'X': xv})
+    for n, nr, w in gm:
+        ts.append({'kind': 'gmrf-step', 'n': n, 'nr': nr, 'witness': w})
     return ts
 
 
@@ -1833,7 +1858,9 @@ def body(chk):
                        'infeasible); on every path the proposal density used, the acceptance rule, the Hastings term (against the '
                        'density ratio derived from the executed proposal map), restoration after reject and the logged rows are '
                        'solver obligations; tune()/learn() steps are executed on symbolic floats and the direction of the change of '
-                       'the proposal spread is decided with ground instances of exp/log/sqrt laws')
+                       'the proposal spread is decided with ground instances of exp/log/sqrt laws; the GMRF block update step() is '
+                       'executed symbolically (Cholesky as contract stub) and its Hastings term is proved equal to the log density '
+                       'ratio of the executed forward map and of the same code run from the proposed state')
     chk.total.assumptions |= {
         'exp / log / lgamma / sqrt are uninterpreted functions constrained by ground instances of their laws (positivity, sign, '
         'monotonicity, exp(a+b) = exp(a) exp(b), log(1/s) = -log s); proofs (unsat) are sound, counterexamples are replayed',
@@ -1844,13 +1871,18 @@ def body(chk):
         'adaptation is treated as fixed during one transition (diminishing adaptation is not examined)',
         'ScalerOperator is applied to non-zero coordinates (0 is a fixed point of the scale move: no proposal density there)',
         'HMCOperator proposals (leapfrog reversibility / volume preservation / kinetic-energy Hastings term) are the subject of C16 and are not repeated here',
-        'GMRFPiecewiseCoalescentBlockUpdatingOperator._step (Newton iteration with data-dependent stopping, Cholesky, triangular solves) '
-        'is OUTSIDE the claim: only its tuning re-parameterisation and accept/reject/restore wiring are checked',
+        'GMRFPiecewiseCoalescentBlockUpdatingOperator: the Hastings term of the real _step is checked for field dimension <= 3 (4 with the '
+        'Newton contract stub) on the explored Newton-iteration regions (the proof generalises the Newton outputs, see bounds); the '
+        'coalescent model is a stub handing over symbolic sufficient statistics (w >= 0, sum w > 0) and counts; its tuning '
+        're-parameterisation and accept/reject/restore wiring are checked separately',
         'Logger csv cells are str() of the logged scalars; the check reads the expression behind each cell (number formatting itself is outside the claim)',
         'DualAveragingStepSize: claimed are the first step after restart and monotonicity of the new step size in the acceptance statistic; '
         'step-to-step monotonicity does not hold for Nesterov dual averaging by design (running average of past errors) and is not claimed',
     }
-    pmap(run_task, tasks_for(chk.tier), chk.total)
+    tasks = tasks_for(chk.tier)
+    if os.environ.get('C15_ONLY'):  # debugging aid: run only the tasks whose kind starts with the given prefix
+        tasks = [t for t in tasks if t['kind'].startswith(os.environ['C15_ONLY'])]
+    pmap(run_task, tasks, chk.total)
 
 
 def replay_file(path):
@@ -1860,6 +1892,9 @@ def replay_file(path):
         ok, detail = replay_chain(rp['spec'], rp['values'])
     elif rp.get('kind') == 'tune':
         ok, detail = replay_tune(rp['task'], rp['which'], rp['values'])
+    elif rp.get('kind') == 'gmrf-step':
+        f = c15_gmrf.replay if rp.get('focus', 'hastings') == 'hastings' else c15_gmrf.replay_defined
+        ok, detail = f(rp['n'], rp['values'])
     elif rp.get('which') == 'gmrf-wiring':
         ok, detail = False, 'symbolic-only obligation (re-run the check)'
     else:
